@@ -169,10 +169,20 @@ def eval_inplace_twin(case):
     op = dict(case['op'])
     before = snap(v2)
     outs = []
+    operands = []
+
+    def mk_operand(x, v):
+        if x['k'] == 'self':
+            return v
+        if x['k'] == 'str':
+            return x['t']
+        ob = Interp().build(x['p'])
+        operands.append(ob)
+        return ob
     for v, ip in ((v1, True), (v2, False)):
         op['ip'] = ip
         try:
-            outs.append(('ok', apply_op(v, op, lambda x: (v if x['k'] == 'self' else (x['t'] if x['k'] == 'str' else Interp().build(x['p']))))))
+            outs.append(('ok', apply_op(v, op, lambda x, v=v: mk_operand(x, v))))
         except Exception as e:
             if isinstance(e, Rejected):
                 o.skipped = 'rejected'
@@ -198,6 +208,19 @@ def eval_inplace_twin(case):
         o.fail('inplace-differs-from-copy:' + op['op'], '%s: in place %s (tail %r), copy %s (tail %r)' % (what, describe(r1), s1[4], describe(r2), s2[4]))
     elif not (r1 == r2):
         o.fail('inplace-not-eq-copy:' + op['op'], '%s: in-place result != non-in-place result although they look the same: %s' % (what, describe(r1)))
+    # a result is never an argument object, and changing the result afterwards never changes an argument
+    for ob in operands:
+        if isinstance(ob, AnsiString):
+            ob_before = snap(ob)
+            for nm, r in (('in-place', r1), ('copy', r2)):
+                if r is ob:
+                    o.fail('result-is-argument:' + op['op'], '%s: the %s result is the argument object itself' % (what, nm))
+                    continue
+                r.apply_formatting('italic')
+                r.apply_formatting('bg_blue', 0, 1, topmost=False)
+                r += 'q'
+                if snap(ob) != ob_before:
+                    o.fail('result-aliases-argument:' + op['op'], '%s: changing the %s result changed the argument: now %s' % (what, nm, describe(ob)))
     o.nontrivial = s2[1:3] != before[1:3]
     o.key = [before[1], before[2], case['op']]
     o.label(op['op'])
